@@ -5,6 +5,7 @@ CONSTANTS
   EarlyClose = TRUE
   FlushFirst = FALSE
   Lapse = FALSE
+  ExpiryAware = TRUE
   Emit = FALSE
 INVARIANTS Safety
 VIEW view
